@@ -10,7 +10,7 @@ use serde_json::{json, Value};
 use std::os::unix::io::AsRawFd;
 
 #[derive(Clone, Debug, PartialEq)]
-pub enum MKind { Tmpfs, BindFile, BindDir, BindProcFile, BindProcDir, BindMagicLink }
+pub enum MKind { Tmpfs, BindFile, BindDir, BindProcFile, BindProcDir, BindMagicLink, BindSymlink }
 
 #[derive(Clone, Debug)]
 pub struct Target { pub rel: &'static str, pub dir: bool, pub link: bool }
@@ -34,7 +34,7 @@ pub fn targets() -> Vec<Target> {
 }
 
 pub fn kinds_for(t: &Target) -> Vec<MKind> {
-    if t.dir { vec![MKind::Tmpfs, MKind::BindDir, MKind::BindProcDir] } else { vec![MKind::BindFile, MKind::BindProcFile, MKind::BindMagicLink] }
+    if t.dir { vec![MKind::Tmpfs, MKind::BindDir, MKind::BindProcDir] } else if t.link { vec![MKind::BindFile, MKind::BindProcFile, MKind::BindMagicLink, MKind::BindSymlink] } else { vec![MKind::BindFile, MKind::BindProcFile, MKind::BindMagicLink] }
 }
 
 /// sources (outside procfs unless stated), built once per shard
@@ -42,7 +42,7 @@ pub fn build_sources() -> MResult<()> {
     use crate::tree::*;
     let t = TreeSpec::default().file("secret-src").dir("srcdir").file("srcdir/status").file("srcdir/stat").file("srcdir/uptime").dir("srcdir/fd").link("srcdir/fd/40", "/src/secret-src")
         .link("srcdir/exe", "/src/secret-src").link("srcdir/cwd", "/w").dir("srcdir/attr").file("srcdir/attr/current").dir("srcdir/ns").file("srcdir/ns/mnt").dir("srcdir/kernel").file("srcdir/kernel/ostype")
-        .dir("srcdir/task").file("file40");
+        .dir("srcdir/task").file("file40").link("link-to-1", "1");
     // outside /w: the race world rebuilds /w for every execution
     let _ = std::fs::create_dir(out("/src"));
     if lstat(&out("/src/secret-src")).is_none() { t.build(&out("/src"))?; }
@@ -63,9 +63,11 @@ pub fn mount_one(kind: &MKind, target_abs: &str, other_pid: i64) -> Result<(), i
         MKind::BindProcFile => (out("/proc/version"), None, libc::MS_BIND),
         MKind::BindProcDir => (format!("{}/{}", out("/proc"), other_pid), None, libc::MS_BIND),
         MKind::BindMagicLink => (format!("{}/{}/exe", out("/proc"), other_pid), None, libc::MS_BIND),
+        // an ordinary symlink whose body ("1") is a valid entry of the procfs it is mounted into
+        MKind::BindSymlink => (out("/src/link-to-1"), None, libc::MS_BIND),
     };
     // a symlink as bind source is addressed through a descriptor as well
-    let sfd = if *kind == MKind::BindMagicLink { Some(o_path_nofollow(&src).map_err(|_| libc::ENOENT)?) } else { None };
+    let sfd = if *kind == MKind::BindMagicLink || *kind == MKind::BindSymlink { Some(o_path_nofollow(&src).map_err(|_| libc::ENOENT)?) } else { None };
     let spath = cs(&match &sfd { Some(f) => format!("/proc/self/fd/{}", f.as_raw_fd()), None => src });
     let ft = fstype.map(cs);
     let r = unsafe { libc::mount(spath.as_ptr(), tpath.as_ptr(), ft.as_ref().map(|c| c.as_ptr()).unwrap_or(std::ptr::null()), flags, std::ptr::null()) };
